@@ -275,8 +275,18 @@ def gen_case(r, hosts=None, conc=None, errors=False, n_pages=None, simple=False,
     return {'meta': meta, 'opts': o, 'starts': starts, 'start_spellings': sp}
 
 
+def stable_port(case):
+    """one port per site: the URL strings - and with PYTHONHASHSEED fixed the scraper's set-iteration order, which decides what is
+    discovered first - are then the same in every run of the site (each run listens on its own loopback address)"""
+    import zlib
+    key = json.dumps([sorted((list(k), v.get('kind'), v.get('links'), v.get('target')) for k, v in case['meta']['pages'].items()),
+                      case['start_spellings']], sort_keys=True, default=str)
+    return 20000 + zlib.crc32(key.encode()) % 30000
+
+
 def spec_of(case, repo, trace_path):
-    return {'args': args_of(case['opts'], case['start_spellings']), 'site': site_spec(case['meta']), 'repo': repo,
+    return {'port': stable_port(case), 'bind_ip': crawl.random_loopback(),
+            'args': args_of(case['opts'], case['start_spellings']), 'site': site_spec(case['meta']), 'repo': repo,
             'pre_hooks': [HOOK], 'engine_trace_path': trace_path, 'engine_concurrency': case['opts']['conc'],
             'db_uri': bool(case['opts'].get('db_uri'))}
 
@@ -313,6 +323,11 @@ def run_case(case, repo, kill=None, timeout=45):
         spec = spec_of(case, repo, tp)
         if kill is None:
             res = [crawl.run_crawl(spec, timeout=timeout)]
+            for attempt in range(3):
+                if res[0].get('rc') not in (0, 9) and 'Address already in use' in (res[0].get('stderr_tail') or ''):
+                    if os.path.exists(tp):
+                        os.remove(tp)
+                    res = [crawl.run_crawl(dict(spec, bind_ip=crawl.random_loopback()), timeout=timeout)]
         else:
             r1, r2 = crawl.run_with_resume(spec, kill, timeout=timeout)
             res = [r1, r2]
